@@ -55,13 +55,24 @@ def simulate(history, universe):
                 ever_removed_ext = True
             installed = [x for x in installed if (x[0], x[1]) not in gone]
             outcomes.append('ok')
+        elif op[0] == 'badadd':
+            outcomes.append('WnError')       # rejected as a whole: nothing is installed
         else:
             outcomes.append('ok')
     return installed, outcomes, ever_removed_ext
 
 
+def broken_resource(rng):
+    """a lexicon that add() rejects part-way through (a sense relation whose target does not exist): the failed add must
+    not influence what later operations do"""
+    lx = gendoc.gen_lexicon(rng, 'qq', '1', 'en', ['i1', 'i2'], '1.1', size=3)
+    senses = [s_ for e in lx['entries'] for s_ in e.get('senses', [])]
+    senses[-1].setdefault('relations', []).append({'target': 'qq-no-such-sense', 'relType': 'antonym', 'meta': None})
+    return {'lmf_version': '1.1', 'lexicons': [lx]}
+
+
 def gen_history(rng, tier):
-    scenario = rng.choice(['random', 'random', 'provider_swap', 'ext_cycle', 'readd'])
+    scenario = rng.choice(['random', 'random', 'provider_swap', 'ext_cycle', 'readd', 'failed_add'])
     force = {'provider_swap': {'dep', 'v2'}, 'ext_cycle': {'ext'}, 'readd': {'ext', 'dep'}}.get(scenario)
     u = gendoc.gen_universe(rng, size=2, ext_forms=True, force=force)
     names = [n for n, _ in u]
@@ -77,6 +88,12 @@ def gen_history(rng, tier):
         if rng.random() < 0.4:
             hist += [['remove', 'ba:1'], ['add', 'ba:1']]
         return u, hist
+    if scenario == 'failed_add':
+        first = names[0]
+        hist = [['add', first], ['badadd', broken_resource(rng)], ['remove', first]] + [['add', n] for n in names[1:]]
+        if rng.random() < 0.5:
+            hist += [['add', first]]
+        return u, hist
     if scenario == 'readd':
         hist = [['add', n] for n in names] + [['remove', rng.choice(names)], ['add', rng.choice(names)]] \
             + [['remove', 'ba:*'], ['add', 'ba:1'], ['add', 'xa:1']]
@@ -84,7 +101,9 @@ def gen_history(rng, tier):
     hist = []
     for _ in range(rng.randint(3, 10 if tier == 'quick' else 25)):
         r = rng.random()
-        if r < 0.55:
+        if r < 0.08:
+            hist.append(['badadd', broken_resource(rng)])
+        elif r < 0.55:
             hist.append(['add', rng.choice(names)])
         elif r < 0.9:
             n = rng.choice(names)
@@ -145,6 +164,8 @@ def run(rep, tier, build, replay=None):
         for op in hist:
             if op[0] == 'add':
                 ops.append(['add', res[op[1]]])
+            elif op[0] == 'badadd':
+                ops.append(['add', op[1]])
             else:
                 ops.append(op)
         hs.append({'ops': ops, 'final_configs': cfgs, 'lexrows': True, 'deep': True})
@@ -207,14 +228,15 @@ def run(rep, tier, build, replay=None):
             nontriv.add(common.canon_hash(hist + [case['universe']]))
     import addmodel
     pb = {'run_add': [], 'run_remove': [], 'run_add_ili': []}
-    for h, rec in list(zip(hs, recs))[:(14 if tier == 'quick' else 200)]:
+    clean = [(h, rec) for (h, rec), (_u, hist) in zip(zip(hs, recs), cases) if not any(op[0] == 'badadd' for op in hist)]
+    for h, rec in clean[:(14 if tier == 'quick' else 200)]:
         for fn, ps in addmodel.trace_pairs(h['ops'], rec).items():
             pb[fn] += ps
     addmodel.run_correspondence(rep, common, pb, 'c05')
     rep.coverage.update({
         'evaluations': n,
         'distinct_nontrivial': len(nontriv),
-        'rule': 'histories of 3-%d operations add(resource) / remove(specifier: id:version, id, id:*, *:version, globs, lists, '
+        'rule': 'histories of 3-%d operations add(resource) / add(a resource that is rejected part-way) / remove(specifier: id:version, id, id:*, *:version, globs, lists, '
                 'unknown, *) / add(ILI file) over generated universes (bases, dependent lexicon, second version reusing ids, '
                 'extension, extension of the extension, unrelated lexicon), starting from an empty database; after every step '
                 'a generic foreign-key audit of all tables; at the end PRAGMA foreign_key_check/integrity_check, the installed '
